@@ -13,6 +13,33 @@ Theorem C18_set_fails_unchanged : forall f v fv, f_max f < v -> set_val f v fv =
 Proof. exact set_fails_unchanged. Qed.
 Print Assumptions C18_set_fails_unchanged.
 
+(* The same with several faces in play (a Features object carries the identity of the feature map it belongs to; gr_featureval_clone(NULL)
+   hands out an unbound one): a write succeeds exactly when the value is in range AND the object is unbound or already belongs to the
+   writer's face; only a SUCCESSFUL write binds it; a refused write returns nothing — the object, its binding included, is untouched. *)
+Theorem C18_set_on_succeeds_iff : forall face f v x,
+  (exists x', set_val_on face f v x = Some x') <-> (v <= f_max f /\ (fv_map x = None \/ fv_map x = Some face)).
+Proof. exact set_on_succeeds_iff. Qed.
+Print Assumptions C18_set_on_succeeds_iff.
+Theorem C18_set_on_fails_unchanged : forall face f v x, f_max f < v \/ (exists m, fv_map x = Some m /\ m <> face) -> set_val_on face f v x = None.
+Proof. exact set_on_fails_unchanged. Qed.
+Print Assumptions C18_set_on_fails_unchanged.
+Theorem C18_get_set_on_same : forall face f v x x', field_ok f -> set_val_on face f v x = Some x' -> get_val_on face f x' = v.
+Proof. exact get_set_on_same. Qed.
+Print Assumptions C18_get_set_on_same.
+Theorem C18_get_set_on_other : forall face f g v x x', field_ok f -> field_ok g -> disjoint f g -> fv_map x = Some face ->
+  set_val_on face f v x = Some x' -> get_val_on face g x' = get_val_on face g x.
+Proof. exact get_set_on_other. Qed.
+Print Assumptions C18_get_set_on_other.
+Theorem C18_get_set_on_foreign : forall face other f g v x x', other <> face -> fv_map x = None \/ fv_map x = Some face ->
+  set_val_on face f v x = Some x' -> get_val_on other g x' = 0 /\ get_val_on other g x = 0.
+Proof. exact get_set_on_foreign. Qed.
+Print Assumptions C18_get_set_on_foreign.
+(* non-vacuity: an out-of-range write to an unbound object leaves it unbound, so a feature of ANOTHER face can still be written *)
+Example C18_example_unbound_after_refusal :
+  let f := fst (ctor 0 3 1 0 0 []) in
+  set_val_on 1 f 4 blank = None /\ (exists x', set_val_on 2 f 1 blank = Some x' /\ get_val_on 2 f x' = 1 /\ get_val_on 1 f x' = 0 /\ set_val_on 1 f 1 x' = None).
+Proof. vm_compute. split; [reflexivity|]. eexists. repeat split. Qed.
+
 (* every Feat table the loader accepts allocates well-formed, pairwise disjoint bit fields (any number of features,
    any maxima below 2^32: widths straddling word boundaries included) *)
 Theorem C18_alloc_disjoint : forall maxvals l, Forall (fun m => m < W32) maxvals -> alloc maxvals 0 = Some l ->
